@@ -93,6 +93,57 @@ def score(b):
     return (2 if interesting(b) else 0) + len(kinds) / 10.0 + min(len(steps), 10) / 20.0
 
 
+def features(b):
+    """Abstract shape of a behaviour: 1/2/3-grams of (action, option tuple it concerns), per idle mode.
+    Used to pick a sample in which every local pattern the generator produced occurs at least once."""
+    toks = []
+    for s in b["steps"]:
+        if s["a"] in ("Call", "Cancel", "Send"):
+            k = b["key"][s["s"] - 1]
+        elif s["c"]:
+            d = b["dialler"][s["c"] - 1]
+            k = b["key"][d - 1] if d else 0
+        else:
+            k = 0
+        toks.append("%s%s:%d" % (s["a"], ("-" + s["k"]) if s["k"] else "", k))
+    out = set()
+    for n in (1, 2, 3):
+        for i in range(len(toks) - n + 1):
+            out.add((b["idle"],) + tuple(toks[i:i + n]))
+    return out
+
+
+def select(beh, cap, rng):
+    """Lazy-greedy pattern cover (3/4 of the budget), then the highest scores."""
+    import heapq
+    order = list(beh)
+    rng.shuffle(order)
+    feats = [features(b) for b in order]
+    heap = [(-len(f), i) for i, f in enumerate(feats)]
+    heapq.heapify(heap)
+    seen, picked = set(), []
+    while heap and len(picked) < cap * 3 // 4:
+        g, i = heapq.heappop(heap)
+        gain = len(feats[i] - seen)
+        if gain == 0:
+            continue
+        if heap and -heap[0][0] > gain:
+            heapq.heappush(heap, (-gain, i))
+            continue
+        seen |= feats[i]
+        picked.append(i)
+    ps = set(picked)
+    chosen = [order[i] for i in picked]
+    rest = [b for i, b in enumerate(order) if i not in ps]
+    rest.sort(key=score, reverse=True)
+    ni = [b for b in rest if interesting(b)]
+    no = [b for b in rest if not interesting(b)]
+    room = cap - len(chosen)
+    chosen += ni[:room * 5 // 6]
+    chosen += no[:cap - len(chosen)]
+    return chosen, len(seen)
+
+
 def to_schedule(idx, b, rng, mode="ws"):
     n = len(b["key"])
     proto = rng.choice(["gtws", "gtws", "gws", "gws", "auto"])
@@ -362,12 +413,10 @@ def _run(ctx):
         uniq.setdefault(lib.sha([b["key"], b["idle"], b["steps"]]), b)
     beh = sorted(uniq.values(), key=lambda b: lib.sha(b))
     rng.shuffle(beh)
-    beh.sort(key=score, reverse=True)
     n_int = sum(1 for b in beh if interesting(b))
-    cap_int, cap_other = (420, 80) if quick else (16000, 4000)
-    chosen = [b for b in beh if interesting(b)][:cap_int] + [b for b in beh if not interesting(b)][:cap_other]
-    ctx.log("generated %d distinct behaviours (%d interesting: >= 2 subscribers of one key + a cancel/frame/fault); %d chosen" % (
-        len(beh), n_int, len(chosen)))
+    chosen, npat = select(beh, 500 if quick else 20000, rng)
+    ctx.log("generated %d distinct behaviours (%d interesting: >= 2 subscribers of one key + a cancel/frame/fault); %d chosen "
+            "covering %d local patterns" % (len(beh), n_int, len(chosen), npat))
     scheds = [to_schedule(i, b, rng) for i, b in enumerate(chosen)]
     sse = []  # [to_schedule(i, b, rng, mode="sse") for i, b in enumerate(sse_behaviours(rng, 40 if quick else 1500))]
     allsched = scheds + sse
